@@ -357,7 +357,7 @@ func (e *Exec) external(st *State, instr ssa.Instruction, name string, fn *ssa.F
 	case "context.WithValue":
 		c := e.derivedCtx(st, args[0], "value")
 		kv := args[1]
-		kid := app(e.fun("key_id:any", []string{SInt, SInt}, SInt), kv.T[0], kv.T[1])
+		kid := app(e.fun(sym("key_id:any"), []string{SInt, SInt}, SInt), kv.T[0], kv.T[1])
 		st.assume(tEq(app(e.fun("ctx_value_tag", []string{SInt, SInt}, SInt), c.T[1], kid), args[2].T[0]))
 		st.assume(tEq(app(e.fun("ctx_value_val", []string{SInt, SInt}, SInt), c.T[1], kid), args[2].T[1]))
 		st.assume(tEq(app(e.fun("ctx_parent", []string{SInt}, SInt), c.T[1]), args[0].T[1]))
@@ -580,7 +580,7 @@ func (e *Exec) invoke(st *State, instr ssa.Instruction, cc *ssa.CallCommon, recv
 		ret(Val{T: []string{tag, er}})
 		return
 	case m == "Value" && in == "context.Context":
-		kid := app(e.fun("key_id:any", []string{SInt, SInt}, SInt), args[0].T[0], args[0].T[1])
+		kid := app(e.fun(sym("key_id:any"), []string{SInt, SInt}, SInt), args[0].T[0], args[0].T[1])
 		ret(Val{T: []string{app(e.fun("ctx_value_tag", []string{SInt, SInt}, SInt), recv.T[1], kid), app(e.fun("ctx_value_val", []string{SInt, SInt}, SInt), recv.T[1], kid)}})
 		return
 	case m == "Error":
